@@ -2812,6 +2812,11 @@ func (self *TextServerProtocol) commandHandlerPush(_ *TextServerProtocol, args [
 	if err != nil {
 		return self.stream.WriteBytes(self.parser.BuildResponse(false, "ERR Lock Error", nil))
 	}
+	select {
+	case lockCommandResult := <-self.lockWaiter:
+		self.freeCommandResult, lockCommandResult.Data = lockCommandResult, nil
+	default:
+	}
 	return self.stream.WriteBytes(self.parser.BuildResponse(true, "OK", nil))
 }
 
